@@ -491,6 +491,29 @@ def fam_cc(ctx, mods, r, k, cid):
     if out_of_range(P, -1 - 1e-6, 1 + 1e-6):
         ctx.violation(f"{PP}.cross_correlation:all:|r|>1", pcase, cid)
     ctx.count("pure_cc_compared")
+    # only_tri=True: "only the upper triangle ... assuming symmetry": the
+    # upper triangle is the full computation's, the lower triangle is the
+    # upper one with the lag axis mirrored (c_ji(tau) = c_ij(-tau))
+    ok, PT = ctx.call(lambda: PurePy(data.copy(), only_tri=True,
+                                     silence_level=3)
+                      .cross_correlation(tau_max=tp, lag_mode="all"))
+    ctx.evals()
+    if not ok:
+        ctx.violation(f"{PP}.cross_correlation:all:only_tri:raises:"
+                      f"{type(PT).__name__}", {**pcase, "exc": repr(PT)}, cid)
+    elif np.shape(PT) == np.shape(P):
+        PT = np.asarray(PT, float)
+        Pf = np.asarray(P, float)
+        iu = np.triu_indices(N, 1)
+        up_ok = np.allclose(PT[:, iu[0], iu[1]], Pf[:, iu[0], iu[1]],
+                            atol=TOL_R, equal_nan=True)
+        lo_ok = np.allclose(PT[:, iu[1], iu[0]], PT[::-1, iu[0], iu[1]],
+                            atol=TOL_R, equal_nan=True)
+        ctx.count("pure_cc_only_tri_compared")
+        if not (up_ok and lo_ok):
+            ctx.violation(f"{PP}.cross_correlation:all:only_tri:"
+                          + ("upper-triangle-differs" if not up_ok else
+                             "lower-triangle-not-lag-mirrored"), pcase, cid)
     ok, PM = ctx.call(pp.cross_correlation, tau_max=tp, lag_mode="max")
     ctx.evals()
     if not ok:
@@ -1133,11 +1156,16 @@ def clim_reference(kind, anom):
     raise ValueError(kind)
 
 
-def build_net(ctx, mods, kind, obs, lat, lon, tc, winter, anomalies=False):
+def build_net(ctx, mods, kind, obs, lat, lon, tc, winter, anomalies=False,
+              non_local=False):
+    """(how the links are drawn - threshold, suppression of local links - is
+    no business of the similarity estimate the object reports)"""
     cls = mods[kind]
     cd = make_climate_data(mods, obs, lat, lon, tc, anomalies)
     ok, net = ctx.call(cls, data=cd, threshold=0.3, winter_only=winter,
-                       silence_level=3)
+                       non_local=non_local, silence_level=3)
+    if ok and non_local:
+        ctx.count("clim_non_local_networks")
     return ok, net
 
 
@@ -1177,7 +1205,7 @@ def fam_clim(ctx, mods, r, k, cid):
             continue
         sig_tag = tag if kind == "Spearman" else ""
         ok, net = build_net(ctx, mods, kind, obs, lat, lon, tc, winter,
-                            anomalies_flag)
+                            anomalies_flag, non_local=bool(r.random() < 0.3))
         ctx.evals()
         if not ok:
             ctx.violation(f"{cname}.__init__{sig_tag}:raises:"
